@@ -19,8 +19,11 @@ ASSUMPTIONS = ['acceptable lines: the injected line(s); either definition for du
 REQUIRED_COUNTERS = ['faults_injected', 'positions_checked', 'seeds_accepted']
 CASE_TIMEOUT = 900
 
+# (the first line carries characters that some line-splitting routines take for line ends - form feed, vertical tab,
+# the ASCII separators, NEL, LINE SEPARATOR, a bare CR: positions must keep counting '\\n' only)
 PRE = ('TYPE zt\nfa AS INTEGER\nfb AS STRING\nEND TYPE\nDIM zarr(3) AS INTEGER\nDIM zrec AS zt\nCONST zconst% = 5\n'
-       'CONST zcs$ = "abc"\nzlab1:\n10 zn% = 1\nDIM zdyn(zn% + 2) AS INTEGER\nDIM zdyn2(1 TO zn% + 1, 2) AS LONG\n')
+       'CONST zcs$ = "abc"\nzlab1:\n10 zn% = 1\nDIM zdyn(zn% + 2) AS INTEGER\nDIM zdyn2(1 TO zn% + 1, 2) AS LONG\n'
+       'CONST zctl$ = "a\x0cb\x1cc\x0b" \' \x1d\x1e \x85 \u2028 \r x\n')
 POST = ('SUB zsubi (p%)\nzsublab: p% = 1\nzlate$ = zcs$\nEND SUB\nFUNCTION zfunci% (p%)\nzfunci% = p%\nEND FUNCTION\n')
 
 T = 'compile:TYPE_MISMATCH'
